@@ -109,6 +109,18 @@ CHECKS = {
    text="TLC enumerates the cases and the statement that every influencing leaf must receive a gradient in training and evaluation mode, cache off or on, whatever inference call came before. Each case runs on the matching zoo models in float64: back-propagation succeeds, gradients are finite, every parameter that influences the result (decided by central differences) receives a gradient, and directional derivatives with respect to inputs, context and each parameter tensor equal central differences (2e-4). C10's replay additionally compares parameter gradients of cached calls with the uncached twin.",
    design_ref="DESIGN.md section 4, C16",
    note="One random direction per leaf; correctness of torch autograd for built-in operators is trusted; UMNN and discrete distributions skipped; kinks avoided except exact zeros for smooth elementwise maps. " + TRUSTED),
+
+ "C05": dict(
+   technique="TLA+ specification of the exactly decidable parts of the base distributions (spec/Dist.tla over RatLin / Rat: Bernoulli masses as rational sums, MG1 matrices, mixture weights, Gaussian / KDE normaliser units) model-checked by TLC; every case executed on the real classes with exact summation, the symbolic Gaussian density and Gauss-Legendre quadrature (the method the property prescribes)",
+   text="TLC proves that the Bernoulli masses over {0,1}^D sum to one exactly for every lattice probability vector, that the MG1 change of variables is volume preserving, that mixture weights sum to one, and fixes the number of 1/2 log(2 pi) and log-sigma terms per event shape. On the real classes: exact summation and mean for the Bernoulli, the symbolic Gaussian log-density at random points for every event shape (1-D and multi-dimensional; standard, diagonal, conditional with several context rows), quadrature of exp(log_prob) in 1-2 dimensions for Gaussians, the MADE mixture per context row, the kernel-density evaluator, box priors and the 4-D truncated prior; mean() type / shape / value; samplers as deterministic functions of a controlled stream.",
+   design_ref="DESIGN.md section 4, C05",
+   note="Gaussian normalisation is a stated fact; quadrature tolerances 1e-5 (2e-4 in 4-D); convergence of empirical distributions is not decided by this technique (replaced by controlled-stream sampler identities). " + TRUSTED),
+
+ "C03": dict(
+   technique="TLA+ specification of flows as chains of transformer types over intervals (spec/FlowVal.tla) model-checked by TLC: which programs map the data space onto the base support, and log_prob's terms exactly once; every well-formed program built from real transforms and exp(log_prob) integrated by (adaptive) quadrature per context row, as the property prescribes",
+   text="TLC enumerates every chain of up to 2 (3) transformer types x base distribution x context, decides onto-ness compositionally on intervals and checks the term structure of log_prob. Each onto program that starts on the real line is built from real library transforms (all four spline families with tails and on [0,1], LU / QR / SVD / naive linear with the cache on, coupling, autoregressive, ActNorm, LogTanh with non-default cut points, ...) in dimension 1 (and a sample in dimension 2) and exp(log_prob) is integrated with x = sinh(t) and adaptive Gauss-Legendre / Gauss-Lobatto panels (kinks and jumps are bisected): it must be 1 +- 3e-5 per context row, also with the weight cache on after an inverse-first history; programs the specification calls not onto must not integrate to one.",
+   design_ref="DESIGN.md section 4, C03",
+   note="Programs whose tails are too heavy for quadrature to 1e-5 (LogTanh followed by a compressing stage) are outside the property's own quantifier and excluded; per-transformer bijectivity is C09/C17, base normalisation C05. " + TRUSTED),
 }
 REASONS = {}
 
